@@ -110,9 +110,45 @@ def run(ctx):
     for i in bad[:5]:
         ctx.corr_mismatch("SetOps model vs implementation", {"case": meta[i]})
     operators(ctx, envs)
+    small_against_large(ctx, envs)
     ctx.cov["operand_kind_pairs"] = len(kindpairs)
     ctx.cov["operand_variants"] = variants
     ctx.cov["families"] = fams
+
+
+def small_against_large(ctx, envs):
+    """a small unsorted operand with repeats against a LARGE tree (size ratios beyond any fast-path threshold):
+    the result is still the sorted, duplicate-free mathematical result, whichever side the small one is on"""
+    rng = ctx.rng
+    n = 0
+    for ek, env in envs.items():
+        if ek[2] == "none-int":
+            continue
+        big = sorted(rng.sample(range(0, 400), 200))
+        for kindbig in ("TreeSet", "BTree", "Set"):
+            for small in ([5, 4, 3, 2, 1], [big[7], big[3], big[3], 401, big[150]], [big[199], big[0]], [402, 401], [big[5]] * 3):
+                for skind in ("list", "tuple", "pyset"):
+                    for fname in ("intersection", "union", "difference"):
+                        for order in (0, 1):
+                            sa = (kindbig, big, [1] * len(big)) if kindbig == "BTree" else (kindbig, big)
+                            sb = (skind, list(small))
+                            if fname == "difference" and order == 1:
+                                continue             # difference wants a BTrees container first
+                            a, b = env.build(sa), env.build(sb)
+                            try:
+                                r = env.f.func(fname, env.impl)(a, b) if order == 0 else env.f.func(fname, env.impl)(b, a)
+                                keys = [env.km.ik(k) for k in r]
+                            except Exception as e:  # noqa
+                                keys = "raised %s" % type(e).__name__
+                            A, B = set(big), set(small)
+                            want = sorted({"intersection": A & B, "union": A | B, "difference": A - B}[fname])
+                            n += 1
+                            ctx.count(("small-vs-large", ek, kindbig, skind, fname, order, tuple(small)))
+                            if keys != want:
+                                ctx.oracle_failure("%s:%s:small-operand-against-large-%s" % (ek[1], fname, kindbig),
+                                                   "%s: %s(%s of 200 keys, %s %r)%s -> %s..., expected %s..." % (ek, fname, kindbig, skind, small, " (operands swapped)" if order else "", str(keys)[:80], str(want)[:80]),
+                                                   {"env": ek, "fn": fname, "big": big, "small": small, "small_kind": skind, "order": order})
+    ctx.cov["small_against_large_cases"] = n
 
 
 def operators(ctx, envs):
@@ -131,7 +167,7 @@ def operators(ctx, envs):
         sa = gen_operand(rng, ka, ["Set", "TreeSet"] if inplace or sym == "^" else BT_KINDS, 3)  # ^ is documented for sets only
         if sa[0] in ("Bucket", "BTree"):
             sa = (sa[0], sa[1], [abs(v) for v in sa[2]])
-        sb = gen_operand(rng, kb, ["Set", "TreeSet", "Bucket", "BTree"] + (["list", "tuple"] if sym not in ("^",) else []), 3)
+        sb = gen_operand(rng, kb, ["Set", "TreeSet", "Bucket", "BTree", "pyset"] + (["list", "tuple"] if sym not in ("^",) else []), 3)
         if sb[0] in ("Bucket", "BTree"):
             sb = (sb[0], sb[1], [abs(v) for v in sb[2]])
         if sym == "^=" and sb[0] in ("list", "tuple"):
@@ -142,7 +178,7 @@ def operators(ctx, envs):
             lst = [hit[i % len(hit)] for i in range(len(sa[1]))]
             rng.shuffle(lst)
             sb = (sb[0], lst)
-        if ek[2] == "none-int" and sb[0] in ("list", "tuple"):
+        if ek[2] == "none-int" and sb[0] in ("list", "tuple", "pyset"):
             sb = (sb[0], [k for k in sb[1] if k != 0])
         from harness.families import sizes
         cl = [env.f.cls(k, env.impl) for k in ("BTree", "TreeSet")]
